@@ -300,6 +300,16 @@ pub fn run_plan(b: u64, plan: &Value, seed: u64) -> Value {
 /// after each batch the H4 counters of both routing tables are compared with the aggregate over the
 /// currently cached lookups.
 fn run_cache(seed: u64, n: u64, out: &mut Out) -> (u64, Vec<Value>) {
+    // a node on a private address never changes its id; a reachable node on a public address does, once the address its peers
+    // report has been confirmed by the ping it sends to itself: the routing tables are rebuilt around the new id while lookups
+    // are cached
+    let (l1, mut samples) = run_cache_node(seed, n, out, false);
+    let (l2, s2) = run_cache_node(seed, (n / 4).max(60), out, true);
+    samples.extend(s2);
+    (l1 + l2, samples)
+}
+
+fn run_cache_node(seed: u64, n: u64, out: &mut Out, public: bool) -> (u64, Vec<Value>) {
     let mut sim = Sim::new(seed ^ 0xCAC4E, NetCfg { lat_min_ms: 1, lat_max_ms: 1, cadence_ms: 100, ..Default::default() });
     let ids: Vec<[u8; 20]> = (0..4).map(|i| crypto::sha1(&[i as u8, 77])).collect();
     // outage windows: for a stretch of lookups the peers are silent (mode 1) or answer without a token (mode 2), so lookups of
@@ -319,7 +329,10 @@ fn run_cache(seed: u64, n: u64, out: &mut Out) -> (u64, Vec<Value>) {
         }
         _ => Reply::Default,
     }));
-    let c = sim.add_node(NodeOpts::client(private_ip(2), &net.bootstrap()));
+    let c = sim.add_node(NodeOpts::client(if public { crate::sim::public_ip(77) } else { private_ip(2) }, &net.bootstrap()));
+    let id0 = sim.snapshot(c).map(|s| s.id.clone()).unwrap_or_default();
+    // the first lookups (the node's own id among them) are cached BEFORE the address is confirmed: a few lookups while the
+    // bootstrap lookup is still on its way
     sim.run_for(2500);
     let mut rng = crate::rng::Rng::new(seed ^ 77);
     let mut lines = 0;
@@ -360,7 +373,7 @@ fn run_cache(seed: u64, n: u64, out: &mut Out) -> (u64, Vec<Value>) {
                 let main_rdse: f64 = g.iter().map(|e| e.responders_dht_size_estimate).sum();
                 let sig_dse: f64 = sg.iter().map(|e| e.dht_size_estimate).sum();
                 let sig_rdse: f64 = sg.iter().map(|e| e.responders_dht_size_estimate).sum();
-                let ev = json!({"e":"cache","b":i,"lookups":i + 1,"cache_len":s.cache.len(),
+                let ev = json!({"e":"cache","b":i,"lookups":i + 1,"cache_len":s.cache.len(),"public":public,"rekeyed":s.id != id0,
                     "n_findnode":f.len(),"n_get":g.len(),"n_signed":sg.len(),
                     "main":{"dse_count":m.dht_size_estimates_count,"resp_count":m.responders_samples_count,"subnets_sum":m.responders_subnets_sum,
                             "dse_sum_ok":close(m.dht_size_estimates_sum, main_dse),"resp_sum_ok":close(m.responders_size_estimates_sum, main_rdse)},
@@ -376,7 +389,7 @@ fn run_cache(seed: u64, n: u64, out: &mut Out) -> (u64, Vec<Value>) {
             }
         }
         if !sim.nodes[c].alive {
-            out.line(&json!({"e":"cache","b":i,"lookups":i + 1,"cache_len":0,"n_findnode":0,"n_get":0,"n_signed":0,
+            out.line(&json!({"e":"cache","b":i,"lookups":i + 1,"cache_len":0,"n_findnode":0,"n_get":0,"n_signed":0,"public":public,"rekeyed":false,
                 "main":{"dse_count":0,"resp_count":0,"subnets_sum":0,"dse_sum_ok":true,"resp_sum_ok":true},
                 "signed":{"dse_count":0,"resp_count":0,"subnets_sum":0,"dse_sum_ok":true,"resp_sum_ok":true},
                 "subnets_get":0,"subnets_signed":0,"panicked":true}));
